@@ -1,6 +1,8 @@
 package props
 
 import (
+	"math"
+
 	"godsverif/core"
 
 	"github.com/emirpasic/gods/v2/trees/btree"
@@ -24,6 +26,11 @@ func newKVByKind[K comparable](c *core.Ctx, kind string, d *Dom[K]) *KV[K, int] 
 		order := btreeOrders[r.Intn(len(btreeOrders))]
 		if r.Bool() {
 			order = btreeOrders[r.Intn(4)] // favour small orders: deep trees, inner-level borrow/merge
+		}
+		if r.Intn(40) == 0 {
+			// extreme but documented orders (any order >= 3 is allowed)
+			order = []int{1000, 10000, 1 << 31, 1<<31 + 1, math.MaxInt - 1, math.MaxInt}[r.Intn(6)]
+			c.Count("btree-order:extreme", 1)
 		}
 		a = newBTree[K, int](order, cm)
 		c.Count("btree-order:"+itoa(order), 1)
